@@ -115,6 +115,8 @@ For each change i (1, 2) deliver in `{out}/change_i/`:
   "demo_cmd": "<how you built and ran the demo, and the outputs with and without the change>",
   "tests": "<how you ran the test suite with the change and its result>"}}`
 
+Never use `git stash` in your worktree (the stash is shared with other worktrees of the same repository; save diffs to files in your output directory instead).
+
 Verify everything yourself before you finish: for each change start from a clean HEAD (`git -C {wt} checkout -- .`),
 apply the patch, build, run the 34 tests, build and run the demo with and without the change.  Leave the worktree
 clean (no applied patch) and delete `{wt}/_b` and built demo binaries at the end.  Your final message: two short
